@@ -67,6 +67,8 @@ def other_operations(chk, th):
         out["parent with heralded CNOT"] = p
         g = lw.Circuit(3); g.bs(0, 2, convention="H"); g.mode_swaps({0: 1, 1: 2, 2: 0}); g.barrier([0, 2]); g.add(lw.Unitary(lw.random_unitary(2, seed=3)), 1, group=True)
         out["groups swaps barrier"] = g
+        rv = lw.Circuit(4); rv.bs(3, 1, convention="H"); rv.bs(2, 0, reflectivity=0.3); rv.ps(3, 0.2); rv.bs(1, 0, convention="H", reflectivity=0.8)
+        out["beam splitters given high mode first"] = rv
         # circuits whose component list is exactly ONE group (what add() produces), with a herald of their own on different in / out modes
         inner = lw.Circuit(3); inner.bs(0, 1); inner.ps(1, 0.6); inner.bs(1, 2, convention="H")
         sg = lw.Circuit(3); sg.add(inner, 0, group=True); sg.herald(1, 0, 2)
